@@ -25,6 +25,15 @@
  *   their own ops (p: parent, c: child), one at a time in script order (turns passed over pipes);
  *   K = kill(getpid(), sig).  Output: parent trace "||" child trace.
  *
+ * The signal lock.  read(), write() and pipe2() are wrapped (-Wl,--wrap): the process-wide lock
+ * pipe of signal.c is the only pipe libuv makes without O_NONBLOCK here; for every access to it
+ * (lock = read, unlock = write; the first write after its creation is the initial token) the
+ * wrapper asks pthread_sigmask() whether every signal is blocked in the calling thread.  That is
+ * the rule the code relies on (uv__signal_block_and_lock: block, then lock;
+ * uv__signal_unlock_and_unblock: unlock, then unblock; the handler runs with sa_mask full): a
+ * handler can then never run in a thread that holds the lock.  Every trace ends with "lk0" (all
+ * accesses made with all signals blocked), "lkBAD<n>" or "lkNONE" (the wrapper saw no access).
+ *
  * Every case runs in a forked child (signal state is process-wide); a child that dies prints
  * "crash <status>".  Handles and loops live in static arrays so that their address order is
  * their index order (uv__signal_compare sorts by address). */
@@ -62,6 +71,51 @@ static uv_prepare_t keep[NLOOPS];
 static uv_signal_t hs[MAXH];
 static int nh, closing[MAXH], closed[MAXH], hloop[MAXH];
 static int fork_mode;
+
+/* ---- the lock pipe, seen through the wrappers ---- */
+int __real_pipe2(int fds[2], int flags);
+ssize_t __real_read(int fd, void* buf, size_t n);
+ssize_t __real_write(int fd, const void* buf, size_t n);
+static int lockfd[2] = { -1, -1 };
+static int lock_fresh, started_ok;
+static long lock_acc, lock_bad;
+
+static int all_blocked(void) {
+  sigset_t cur;
+  int s;
+  if (pthread_sigmask(SIG_SETMASK, NULL, &cur)) return 0;
+  for (s = 1; s <= 64; s++) {
+    if (s == SIGKILL || s == SIGSTOP || s == 32 || s == 33) continue;   /* cannot be blocked / glibc internal */
+    if (sigismember(&cur, s) != 1) return 0;
+  }
+  return 1;
+}
+
+int __wrap_pipe2(int fds[2], int flags) {
+  int r = __real_pipe2(fds, flags);
+  if (r == 0 && !(flags & O_NONBLOCK)) { lockfd[0] = fds[0]; lockfd[1] = fds[1]; lock_fresh = 1; }
+  return r;
+}
+
+ssize_t __wrap_read(int fd, void* buf, size_t n) {
+  if (fd >= 0 && fd == lockfd[0]) { lock_acc++; if (!all_blocked()) lock_bad++; }
+  return __real_read(fd, buf, n);
+}
+
+ssize_t __wrap_write(int fd, const void* buf, size_t n) {
+  if (fd >= 0 && fd == lockfd[1]) {
+    if (lock_fresh) lock_fresh = 0;                 /* the token put in by uv__signal_global_reinit */
+    else { lock_acc++; if (!all_blocked()) lock_bad++; }
+  }
+  return __real_write(fd, buf, n);
+}
+
+static void print_lock(void) {
+  if (lock_bad) printf("lkBAD%ld ", lock_bad);
+  else if (lock_acc == 0 && started_ok) printf("lkNONE ");
+  else printf("lk0 ");
+}
+
 static char* beh[MAXB];
 static int nbeh, cb_cnt, in_cb;
 static const int wsigs[4] = { SIGHUP, SIGUSR1, SIGUSR2, SIGWINCH };
@@ -145,10 +199,10 @@ static void do_token(char* tok) {
     } else printf("x ");
     break;
   case 'S':
-    if (n >= 2 && legal(a)) printf("r%d ", uv_signal_start(&hs[a], signal_cb, b)); else printf("x ");
+    if (n >= 2 && legal(a)) { int r = uv_signal_start(&hs[a], signal_cb, b); if (r == 0) started_ok = 1; printf("r%d ", r); } else printf("x ");
     break;
   case 'O':
-    if (n >= 2 && legal(a)) printf("r%d ", uv_signal_start_oneshot(&hs[a], signal_cb, b)); else printf("x ");
+    if (n >= 2 && legal(a)) { int r = uv_signal_start_oneshot(&hs[a], signal_cb, b); if (r == 0) started_ok = 1; printf("r%d ", r); } else printf("x ");
     break;
   case 'T':
     if (n >= 1 && legal(a)) printf("r%d ", uv_signal_stop(&hs[a])); else printf("x ");
@@ -288,6 +342,7 @@ static void run_case(char* line) {
     if (wk[l].ret) { printf("envfail loop_init %d\n", wk[l].ret); return; }
   }
   do_ops(p1);
+  print_lock();
   printf("\n");
 }
 
@@ -363,6 +418,7 @@ static void run_fork_case(char* line) {
       break;
     }
   }
+  print_lock();
   if (is_child) { fflush(stdout); _exit(0); }
   {
     char buf[4096]; int r, st = 0;
